@@ -101,50 +101,72 @@ inductive NRes where
   | more | nonStart | err
 deriving Repr, DecidableEq
 
+/-- FU with the start bit: any previous partial NALU is dropped; start + end is refused -/
+def fuStart (d : Dec) (seq : UInt16) (b0 b1 b2 : UInt8) (data : Bytes) : Dec × NRes :=
+  let d0 := d.resetFragments
+  if (b2 >>> 6) &&& 0x01 ≠ 0 then (d0, .err)
+  else
+    let typ := b2 &&& 0x3F
+    -- head = uint16(b0 & 0x81)<<8 | uint16(typ)<<9 | uint16(b1)
+    let hh : UInt8 := (b0 &&& (0x81 : UInt8)) ||| (typ <<< (1 : UInt8))
+    ({ d0 with fragmentsSize := data.length + 2,      -- len(pkt.Payload[1:])
+               fragments := [[hh, b1], data],
+               fragmentNextSeqNum := seq + 1,
+               firstPacketReceived := true }, .more)
+
+/-- FU without the start bit -/
+def fuCont (d : Dec) (seq : UInt16) (b2 : UInt8) (data : Bytes) : Dec × NRes :=
+  if d.fragmentsSize = 0 then
+    if !d.firstPacketReceived then (d, .nonStart) else (d, .err)
+  else if seq ≠ d.fragmentNextSeqNum then (d.resetFragments, .err)
+  else
+    let sz := d.fragmentsSize + data.length
+    if sz > maxAU then (d.resetFragments, .err)
+    else
+      let d1 : Dec := { d with fragmentsSize := sz, fragments := d.fragments ++ [data],
+                               fragmentNextSeqNum := d.fragmentNextSeqNum + 1 }
+      if (b2 >>> 6) &&& 0x01 ≠ 1 then (d1, .more)
+      else
+        let ns := splitNALUs (joinFragments d1.fragments d1.fragmentsSize)
+        if ns.length = 0 then (d1.resetFragments, .err)   -- /repo fix e75535c: only start codes
+        else (d1.resetFragments, .nalus ns)
+
+/-- `case h265.NALUType_FragmentationUnit`; `tl` is `pkt.Payload[2:]` -/
+def decodeFU (d : Dec) (seq : UInt16) (b0 b1 : UInt8) (tl : Bytes) : Dec × NRes :=
+  match tl with
+  | [] => (d.resetFragments, .err)
+  | b2 :: data => if b2 >>> 7 = 1 then fuStart d seq b0 b1 b2 data else fuCont d seq b2 data
+
+/-- `case h265.NALUType_AggregationUnit`; `tl` is `pkt.Payload[2:]` -/
+def decodeAP (d : Dec) (tl : Bytes) : Dec × NRes :=
+  let d1 := d.resetFragments
+  match aggLoop false (tl.length + 1) tl [] with
+  | none => (d1, .err)
+  | some ns => ({ d1 with firstPacketReceived := true }, .nalus ns)
+
 /-- `decodeNALUs` -/
 def decodeNALUs (d : Dec) (p : Pkt) : Dec × NRes :=
   match p.payload with
   | b0 :: b1 :: tl =>
     let typ := ((b0 >>> 1) &&& 0x3F).toNat
-    if typ = CodecH26x.h265TypeAP then
-      let d1 := d.resetFragments
-      match aggLoop false (tl.length + 1) tl [] with
-      | none => (d1, .err)
-      | some ns => ({ d1 with firstPacketReceived := true }, .nalus ns)
-    else if typ = CodecH26x.h265TypeFU then
-      match tl with
-      | [] => (d.resetFragments, .err)
-      | b2 :: data =>
-        let start := b2 >>> 7
-        let en := (b2 >>> 6) &&& 0x01
-        if start = 1 then
-          let d0 := d.resetFragments
-          if en ≠ 0 then (d0, .err)
-          else
-            let typ := b2 &&& 0x3F
-            -- head = uint16(b0 & 0x81)<<8 | uint16(typ)<<9 | uint16(b1)
-            let hh : UInt8 := (b0 &&& (0x81 : UInt8)) ||| (typ <<< (1 : UInt8))
-            ({ d0 with fragmentsSize := (b1 :: tl).length,
-                       fragments := [[hh, b1], data],
-                       fragmentNextSeqNum := p.seq + 1,
-                       firstPacketReceived := true }, .more)
-        else if d.fragmentsSize = 0 then
-          if !d.firstPacketReceived then (d, .nonStart) else (d, .err)
-        else if p.seq ≠ d.fragmentNextSeqNum then (d.resetFragments, .err)
-        else
-          let sz := d.fragmentsSize + data.length
-          if sz > maxAU then (d.resetFragments, .err)
-          else
-            let d1 : Dec := { d with fragmentsSize := sz, fragments := d.fragments ++ [data],
-                                     fragmentNextSeqNum := d.fragmentNextSeqNum + 1 }
-            if en ≠ 1 then (d1, .more)
-            else
-              let ns := splitNALUs (joinFragments d1.fragments d1.fragmentsSize)
-              if ns.length = 0 then (d1.resetFragments, .err)   -- /repo fix: only start codes
-              else (d1.resetFragments, .nalus ns)
+    if typ = CodecH26x.h265TypeAP then decodeAP d tl
+    else if typ = CodecH26x.h265TypeFU then decodeFU d p.seq b0 b1 tl
     else if typ = CodecH26x.h265TypePACI then (d.resetFragments, .err)
     else (d.resetFragments, .nalus [p.payload])
   | _ => (d.resetFragments, .err)
+
+/-- `Decode` after `decodeNALUs` succeeded with `ns` -/
+def addNALUs (d1 : Dec) (ns : List Bytes) (marker : Bool) : Dec × DecRes (List Bytes) :=
+  if d1.frameBufferLen + ns.length > maxNALUs then (d1.resetFrameBuffer, .err)
+  else
+    let addSize := totalLen ns
+    if d1.frameBufferSize + addSize > maxAU then (d1.resetFrameBuffer, .err)
+    else
+      let d2 : Dec := { d1 with frameBuffer := d1.frameBuffer ++ ns,
+                                frameBufferLen := d1.frameBufferLen + ns.length,
+                                frameBufferSize := d1.frameBufferSize + addSize }
+      if !marker then (d2, .more)
+      else (d2.resetFrameBuffer, .ok d2.frameBuffer)
 
 /-- `Decoder.Decode` -/
 def decode (d : Dec) (p : Pkt) : Dec × DecRes (List Bytes) :=
@@ -152,17 +174,7 @@ def decode (d : Dec) (p : Pkt) : Dec × DecRes (List Bytes) :=
   | (d1, .more) => (d1, .more)
   | (d1, .nonStart) => (d1, .nonStart)
   | (d1, .err) => (d1, .err)
-  | (d1, .nalus ns) =>
-    if d1.frameBufferLen + ns.length > maxNALUs then (d1.resetFrameBuffer, .err)
-    else
-      let addSize := totalLen ns
-      if d1.frameBufferSize + addSize > maxAU then (d1.resetFrameBuffer, .err)
-      else
-        let d2 : Dec := { d1 with frameBuffer := d1.frameBuffer ++ ns,
-                                  frameBufferLen := d1.frameBufferLen + ns.length,
-                                  frameBufferSize := d1.frameBufferSize + addSize }
-        if !p.marker then (d2, .more)
-        else (d2.resetFrameBuffer, .ok d2.frameBuffer)
+  | (d1, .nalus ns) => addNALUs d1 ns p.marker
 
 /-- bytes the decoder state keeps referenced between calls (`fragments` + `frameBuffer`) -/
 def retained (d : Dec) : Nat := totalLen d.fragments + totalLen d.frameBuffer
